@@ -108,6 +108,27 @@ theorem resume_requests_only_missing (gc : SGrid) (hs : gc.stored.Nodup) (batch 
   rw [List.nodup_append] at h
   exact h.2.2 k hin k hk rfl
 
+
+/-! ### cost accounting across an interruption (finding F5b, machine-checked)
+
+The property also asks for the same COST ACCOUNTING as a run that was never interrupted. By `resume_requests_only_missing` the resumed
+activation evaluates — and therefore books (`misc_costs[a, b] = model_costs[a] · #new points`, `AmiscModel.Store.bookCall`) — only
+the points that were not stored before the interruption; the evaluations made before it are booked nowhere. -/
+
+/-- **F5b witness**: one input, two knots per level, constant cost 3. The uninterrupted activation of β = (1) evaluates 2 points
+    and books 6; interrupted after ONE of the two values was stored, the resumed activation designs 1 point and books 3 — the
+    stored data are complete and identical (`resume_same_store`), the cost account is not. -/
+theorem resume_books_only_the_remaining_points :
+    let g1 := (activateBatch { kpl := 2 } [([], [0])]).1
+    let gc : SGrid := { g1 with stored := g1.stored ++ [([], [1])] }
+    (designBatch g1 [([], [1])] []).2.map (·.2.length) = [2] ∧
+    (designBatch gc [([], [1])] []).2.map (·.2.length) = [1] ∧
+    (bookCall {} [([], [3, 3])] [([], [1], 2)]).misc.map (·.cost) = [6] ∧
+    (bookCall {} [([], [3])] [([], [1], 1)]).misc.map (·.cost) = [3] ∧
+    ((activateBatch gc [([], [1])]).1.stored.all fun k => decide (k ∈ (activateBatch g1 [([], [1])]).1.stored)) = true ∧
+    ((activateBatch g1 [([], [1])]).1.stored.all fun k => decide (k ∈ (activateBatch gc [([], [1])]).1.stored)) = true := by
+  refine ⟨by decide +kernel, by decide +kernel, by decide +kernel, by decide +kernel, by decide +kernel, by decide +kernel⟩
+
 /-! non-vacuity -/
 example : (microSteps [([0], [0]), ([1], [0])]).length = 6 := by decide
 
